@@ -1,0 +1,109 @@
+//go:build verif
+
+// Contracts for the deductive verifier under /verif (comment-only; never compiled into oxy).
+package ratelimit
+
+// theta = timePerToken (ns per token). Potential of a bucket at time t: availableTokens*theta + (t - lastRefresh).
+
+//@ pred bucketOK(tb *tokenBucket) = tb != nil && tb.timePerToken >= 1 && tb.burst >= 0 && 0 <= tb.availableTokens && tb.availableTokens <= tb.burst && tb.lastRefresh <= lastclock && tb.lastConsumed >= 0
+//@ pred refillOf(tb *tokenBucket, k int) = min(old(tb.burst), old(tb.availableTokens) + k)
+//@ pred refreshed(tb *tokenBucket, k int) = tb.availableTokens == min(old(tb.burst), old(tb.availableTokens) + k) && tb.lastRefresh == ite(k == 0, old(tb.lastRefresh), lastclock) && tb.timePerToken == old(tb.timePerToken) && tb.burst == old(tb.burst) && tb.period == old(tb.period)
+
+//@ type tokenBucket
+//@   guarded_by TokenLimiter.mutex: period timePerToken burst availableTokens lastRefresh lastConsumed
+
+//@ type rate
+//@   immutable period average burst
+
+//@ func (*tokenBucket).updateAvailableTokens
+//@   props C03 C13
+//@   holds TokenLimiter.mutex
+//@   assume clock_stable
+//@   requires bucketOK(tb)
+//@   modifies tb.availableTokens, tb.lastRefresh
+//@   ensures ok: bucketOK(tb)
+//@   ensures refreshed: refreshed(tb, (lastclock - old(tb.lastRefresh)) / old(tb.timePerToken))
+//@   ensures potential_not_increased: tb.availableTokens * tb.timePerToken + (lastclock - tb.lastRefresh) <= old(tb.availableTokens) * tb.timePerToken + (lastclock - old(tb.lastRefresh))
+//@   ensures next_token_pending: lastclock - tb.lastRefresh < tb.timePerToken || tb.availableTokens == tb.burst
+//@   ensures refresh_monotone: old(tb.lastRefresh) <= tb.lastRefresh && tb.lastRefresh <= lastclock
+
+//@ func (*tokenBucket).consume
+//@   props C03 C13
+//@   holds TokenLimiter.mutex
+//@   assume clock_stable
+//@   requires bucketOK(tb) && tokens >= 0
+//@   modifies tb.availableTokens, tb.lastRefresh, tb.lastConsumed
+//@   ensures ok: bucketOK(tb)
+//@   ensures params_kept: tb.timePerToken == old(tb.timePerToken) && tb.burst == old(tb.burst) && tb.period == old(tb.period)
+//@   ensures too_big_refused: tokens > tb.burst ==> result1 != nil && tb.lastConsumed == 0 && refreshed(tb, (lastclock - old(tb.lastRefresh)) / old(tb.timePerToken))
+//@   ensures admitted_iff: (result1 == nil && result0 == 0) <==> (tokens <= tb.burst && refillOf(tb, (lastclock - old(tb.lastRefresh)) / old(tb.timePerToken)) >= tokens)
+//@   ensures admitted_debits: result1 == nil && result0 == 0 ==> tb.lastConsumed == tokens && tb.availableTokens == refillOf(tb, (lastclock - old(tb.lastRefresh)) / old(tb.timePerToken)) - tokens && tb.lastRefresh == ite((lastclock - old(tb.lastRefresh)) / old(tb.timePerToken) == 0, old(tb.lastRefresh), lastclock)
+//@   ensures refused_costs_nothing: !(result1 == nil && result0 == 0) ==> tb.lastConsumed == 0 && refreshed(tb, (lastclock - old(tb.lastRefresh)) / old(tb.timePerToken))
+//@   ensures delay_is_missing_tokens: result1 == nil && tokens <= tb.burst && tb.availableTokens < tokens && tb.lastConsumed == 0 ==> result0 == (tokens - tb.availableTokens) * tb.timePerToken && result0 > 0
+//@   ensures error_only_when_too_big: result1 != nil ==> tokens > tb.burst
+
+//@ func (*tokenBucket).rollback
+//@   props C03 C13
+//@   holds TokenLimiter.mutex
+//@   requires tb != nil
+//@   modifies tb.availableTokens, tb.lastConsumed
+//@   ensures undone: tb.availableTokens == old(tb.availableTokens) + old(tb.lastConsumed) && tb.lastConsumed == 0
+
+//@ func newTokenBucket
+//@   props C03 C13
+//@   assume clock_stable
+//@   requires rate != nil && rate.average >= 1 && rate.burst >= 1 && rate.period >= 1
+//@   ensures fresh_bucket: result != nil && fresh(result)
+//@   ensures full: result.availableTokens == rate.burst && result.burst == rate.burst && result.lastRefresh == lastclock && result.lastConsumed == 0 && result.period == rate.period
+//@   ensures theta: result.timePerToken == rate.period / rate.average
+//@   ensures theta_positive: result.timePerToken >= 1
+
+// ---- bucket sets ---------------------------------------------------------------------------
+
+//@ pred setOK(tbs *TokenBucketSet) = tbs != nil && tbs.buckets != nil && (forall k int :: in(k, tbs.buckets) ==> bucketOK(tbs.buckets[k]) && allocated(tbs.buckets[k]) && tbs.buckets[k].period == k)
+//@ pred kOf(tb *tokenBucket) = (lastclock - old(tb.lastRefresh)) / old(tb.timePerToken)
+//@ pred admits(tb *tokenBucket, tokens int) = tokens <= old(tb.burst) && refillOf(tb, kOf(tb)) >= tokens
+//@ pred debited(tb *tokenBucket, tokens int) = tb.lastConsumed == tokens && tb.availableTokens == refillOf(tb, kOf(tb)) - tokens && tb.lastRefresh == ite(kOf(tb) == 0, old(tb.lastRefresh), lastclock) && tb.timePerToken == old(tb.timePerToken) && tb.burst == old(tb.burst) && tb.period == old(tb.period)
+//@ pred untouched(tb *tokenBucket) = tb.availableTokens == old(tb.availableTokens) && tb.lastRefresh == old(tb.lastRefresh) && tb.lastConsumed == old(tb.lastConsumed) && tb.timePerToken == old(tb.timePerToken) && tb.burst == old(tb.burst) && tb.period == old(tb.period)
+//@ pred onlyRefreshed(tb *tokenBucket) = tb.lastConsumed == 0 && refreshed(tb, kOf(tb))
+
+//@ pred owns(tbs *TokenBucketSet, tb *tokenBucket) = in(old(tb.period), tbs.buckets) && tbs.buckets[old(tb.period)] == tb
+
+//@ type TokenBucketSet
+//@   guarded_by TokenLimiter.mutex: buckets maxPeriod
+
+//@ func maxDuration
+//@   props C03 C13
+//@   ensures result == max(x, y)
+
+//@ func (*TokenBucketSet).Consume
+//@   props C03 C13
+//@   holds TokenLimiter.mutex
+//@   assume clock_stable
+//@   requires setOK(tbs) && tokens >= 0
+//@   modifies tokenBucket.availableTokens, tokenBucket.lastRefresh, tokenBucket.lastConsumed
+//@   ensures keeps_set: setOK(tbs)
+//@   ensures admitted_debits_all: result1 == nil && result0 <= 0 ==> (forall k int :: in(k, tbs.buckets) ==> admits(tbs.buckets[k], tokens) && debited(tbs.buckets[k], tokens))
+//@   ensures refused_debits_none: !(result1 == nil && result0 <= 0) ==> (forall k int :: in(k, tbs.buckets) ==> onlyRefreshed(tbs.buckets[k]))
+//@   ensures refused_has_reason: !(result1 == nil && result0 <= 0) ==> (exists k int :: in(k, tbs.buckets) && !admits(tbs.buckets[k], tokens))
+//@   ensures error_means_too_big: result1 != nil ==> (exists k int :: in(k, tbs.buckets) && tokens > old(tbs.buckets[k].burst))
+//@   ensures delay_covers_every_bucket: result1 == nil && result0 > 0 ==> (forall k int :: in(k, tbs.buckets) && tokens <= tbs.buckets[k].burst ==> result0 >= (tokens - tbs.buckets[k].availableTokens) * tbs.buckets[k].timePerToken)
+//@   ensures others_untouched: forall tb *tokenBucket :: allocated(tb) && !owns(tbs, tb) ==> untouched(tb)
+//@   loop 1 invariant forall k int :: visited(k) ==> in(k, tbs.buckets)
+//@   loop 1 invariant forall k int :: in(k, tbs.buckets) ==> allocated(tbs.buckets[k]) && tbs.buckets[k].period == k && bucketOK(tbs.buckets[k])
+//@   loop 1 invariant forall k int :: in(k, tbs.buckets) && !visited(k) ==> untouched(tbs.buckets[k])
+//@   loop 1 invariant forall k int :: visited(k) ==> (admits(tbs.buckets[k], tokens) && debited(tbs.buckets[k], tokens)) || (!admits(tbs.buckets[k], tokens) && onlyRefreshed(tbs.buckets[k]))
+//@   loop 1 invariant firstErr == nil && maxDelay <= 0 ==> (forall k int :: visited(k) ==> admits(tbs.buckets[k], tokens))
+//@   loop 1 invariant !(firstErr == nil && maxDelay <= 0) ==> (exists k int :: visited(k) && !admits(tbs.buckets[k], tokens))
+//@   loop 1 invariant firstErr != nil ==> (exists k int :: visited(k) && tokens > old(tbs.buckets[k].burst))
+//@   loop 1 invariant firstErr == nil ==> (forall k int :: visited(k) && !admits(tbs.buckets[k], tokens) ==> maxDelay >= (tokens - tbs.buckets[k].availableTokens) * tbs.buckets[k].timePerToken)
+//@   loop 1 invariant maxDelay >= -1
+//@   loop 1 invariant forall tb *tokenBucket :: allocated(tb) && !owns(tbs, tb) ==> untouched(tb)
+//@   loop 2 invariant forall k int :: visited(k) ==> in(k, tbs.buckets)
+//@   loop 2 invariant forall k int :: in(k, tbs.buckets) ==> allocated(tbs.buckets[k]) && tbs.buckets[k].period == k && tbs.buckets[k] != nil
+//@   loop 2 invariant forall k int :: in(k, tbs.buckets) && visited(k) ==> onlyRefreshed(tbs.buckets[k])
+//@   loop 2 invariant forall k int :: in(k, tbs.buckets) && !visited(k) ==> (admits(tbs.buckets[k], tokens) && debited(tbs.buckets[k], tokens)) || (!admits(tbs.buckets[k], tokens) && onlyRefreshed(tbs.buckets[k]))
+//@   loop 2 invariant exists k int :: in(k, tbs.buckets) && !admits(tbs.buckets[k], tokens)
+//@   loop 2 invariant firstErr != nil ==> (exists k int :: in(k, tbs.buckets) && tokens > old(tbs.buckets[k].burst))
+//@   loop 2 invariant firstErr == nil ==> (forall k int :: in(k, tbs.buckets) && !admits(tbs.buckets[k], tokens) ==> maxDelay >= (tokens - refillOf(tbs.buckets[k], kOf(tbs.buckets[k]))) * old(tbs.buckets[k].timePerToken))
+//@   loop 2 invariant forall tb *tokenBucket :: allocated(tb) && !owns(tbs, tb) ==> untouched(tb)
